@@ -167,6 +167,8 @@ class RefEnum:
             "size": ("1" if self.n == 1 else "2-8" if self.n <= 8 else "9-24" if self.n <= 24 else
                      "25-80" if self.n <= 80 else "81-255" if self.n <= 255 else "256+"),
             "perm": "identity" if self.order == list(range(self.n)) else "permuted",
+            "name_bytes": (lambda t: "<255" if t < 255 else "255-257" if t <= 257 else "258-65534" if t < 65535 else
+                           "65535-65537" if t <= 65537 else "65538+")(sum(len(x.encode("utf-8")) for x in self.names)),
         }
 
 
